@@ -2,6 +2,7 @@ package sim
 
 import (
 	"fmt"
+	"math"
 	"math/rand"
 
 	"github.com/yaricom/goNEAT/v4/neat"
@@ -246,6 +247,71 @@ func (e *OpsEnv) Apply(op, a, b int, lib func(string, func())) *OpResult {
 	return res
 }
 
+// PlantLink is a harness-made add-link on pool[a] (a reference implementation of what add-link documents: one new
+// enabled gene between two existing nodes, not ending in a sensor, duplicating no link of the genome, under a fresh
+// innovation number - what the library issues once a generation boundary has dropped the records). Unlike the library
+// it picks the node pair adversarially: a pair that some genome of the pool already links, so that parallel
+// forward/recurrent links and the same link under two numbers turn up in crossover operands often.
+// It returns a description, or "" when no such pair exists.
+func (e *OpsEnv) PlantLink(a int) string {
+	g := e.Pool[a]
+	if len(g.ControlGenes) > 0 || len(g.Traits) == 0 {
+		return ""
+	}
+	byId := map[int]*network.NNode{}
+	for _, n := range g.Nodes {
+		byId[n.Id] = n
+	}
+	has := func(in, out int, rec bool) bool {
+		for _, gn := range g.Genes {
+			if gn.Link.InNode.Id == in && gn.Link.OutNode.Id == out && gn.Link.IsRecurrent == rec {
+				return true
+			}
+		}
+		return false
+	}
+	type cand struct {
+		in, out int
+		rec     bool
+	}
+	var cands []cand
+	for _, og := range e.Pool {
+		for _, gn := range og.Genes {
+			in, out := byId[gn.Link.InNode.Id], byId[gn.Link.OutNode.Id]
+			if in == nil || out == nil || out.IsSensor() {
+				continue
+			}
+			for _, rec := range []bool{false, true} {
+				if rec && in.IsSensor() {
+					continue
+				}
+				if !has(in.Id, out.Id, rec) {
+					cands = append(cands, cand{in.Id, out.Id, rec})
+				}
+			}
+		}
+	}
+	if len(cands) == 0 {
+		return ""
+	}
+	k := cands[e.T.Draw("plant.pair", len(cands))]
+	reg, _, _ := e.registry()
+	innov := reg.NextInnovationNumber()
+	if n := len(g.Genes); n > 0 && g.Genes[n-1].InnovationNum >= innov {
+		e.C.Crash = fmt.Sprintf("harness: planted link would get innovation %d, the genome already holds %d", innov, g.Genes[n-1].InnovationNum)
+		panic(stopRun{})
+	}
+	w := math.Round((e.T.Float("plant.w")*4-2)*1000) / 1000
+	tr := g.Traits[0]
+	gene := genetics.NewGeneWithTrait(tr, w, byId[k.in], byId[k.out], k.rec, innov, w)
+	gene.Link.InNode, gene.Link.OutNode, gene.Link.IsRecurrent, gene.Link.Trait, gene.Link.ConnectionWeight = byId[k.in], byId[k.out], k.rec, tr, w
+	gene.InnovationNum, gene.MutationNum, gene.IsEnabled = innov, w, true
+	g.Genes = append(g.Genes, gene)
+	g.Phenotype = nil
+	e.C.Count("probe.op.planted_link")
+	return fmt.Sprintf("harness add-link(pool[%d]): #%d %d->%d recurrent=%t", a, innov, k.in, k.out, k.rec)
+}
+
 // Describe renders the application for the operation trace.
 func (r *OpResult) Describe() string {
 	s := fmt.Sprintf("%s(pool[%d]", OpNames[r.Op], r.A)
@@ -280,11 +346,14 @@ func (e *OpsEnv) Adopt(g *genetics.Genome, fit float64, maxPool int) int {
 
 // DrawFitness draws a fitness value with frequent ties.
 func (e *OpsEnv) DrawFitness() float64 {
-	switch e.T.Pick("fit.kind", 3, 3, 1) {
+	switch e.T.Pick("fit.kind", 3, 3, 1, 2) {
 	case 0:
 		return float64(e.T.Draw("fit.tie", 3))
 	case 1:
 		return e.T.Float("fit") * 10
+	case 3:
+		// distinct values that differ from the tenth digit on: a comparison with a tolerance takes them for a tie
+		return 3.25 + float64(e.T.Draw("fit.near", 4))*1e-10
 	}
 	return 1e300 * e.T.Float("fit.huge")
 }
